@@ -366,7 +366,7 @@ func runCalls(out string, seed int64, nTraces, steps int, guard *h.StdioGuard) i
 				}
 				cw := writers[id]
 				if cw.state == "open" && rng.Intn(5) == 0 {
-					fault = []string{"sync", "rename"}[rng.Intn(2)]
+					fault = []string{"sync", "rename", "dirsync"}[rng.Intn(3)]
 				}
 				err := cw.w.Close()
 				ev.Op, ev.W, ev.Name, ev.Pay = "close", id, cw.name, cw.pay.id
@@ -481,26 +481,27 @@ type histOp struct {
 }
 
 type imageObs struct {
-	ID         int      `json:"id"`
-	Hist       int      `json:"hist"`
-	K          int      `json:"k"`
-	Label      string   `json:"label"`
-	Mode       string   `json:"mode"` // crash | power
-	Variant    string   `json:"variant"`
-	Acked      int      `json:"acked"`
-	Ingested   int      `json:"ingested"`
-	Rows       int      `json:"rows"`
-	Missing    int      `json:"missing_acked"` // acknowledged rows not returned
-	Invented   int      `json:"invented"`      // rows never ingested before the boundary
-	Dups       int      `json:"dups"`          // rows returned more often than ingested
-	QErr       string   `json:"qerr"`
-	Panic      string   `json:"panic"`
-	InWindow   bool     `json:"in_window"`   // boundary inside a merge window (rename of the output .. durable removal)
-	AfterMerge bool     `json:"after_merge"` // a merge had returned before the boundary
-	Differs    bool     `json:"differs"`     // image differs from the empty and from the final directory
-	Ops        []histOp `json:"ops"`
-	Stdio      int      `json:"stdio"`
-	Sample     []string `json:"sample"`
+	ID            int      `json:"id"`
+	Hist          int      `json:"hist"`
+	K             int      `json:"k"`
+	Label         string   `json:"label"`
+	Mode          string   `json:"mode"` // crash | power
+	Variant       string   `json:"variant"`
+	Acked         int      `json:"acked"`
+	Ingested      int      `json:"ingested"`
+	Rows          int      `json:"rows"`
+	Missing       int      `json:"missing_acked"`  // acknowledged rows not returned
+	Invented      int      `json:"invented"`       // rows never ingested before the boundary
+	Dups          int      `json:"dups"`           // rows returned more often than ingested
+	FailedVisible int      `json:"failed_visible"` // rows of batches that had been answered with an error before the boundary
+	QErr          string   `json:"qerr"`
+	Panic         string   `json:"panic"`
+	InWindow      bool     `json:"in_window"`   // boundary inside a merge window (rename of the output .. durable removal)
+	AfterMerge    bool     `json:"after_merge"` // a merge had returned before the boundary
+	Differs       bool     `json:"differs"`     // image differs from the empty and from the final directory
+	Ops           []histOp `json:"ops"`
+	Stdio         int      `json:"stdio"`
+	Sample        []string `json:"sample"`
 }
 
 type dirOp struct {
@@ -782,11 +783,16 @@ func runCrash(out string, seed int64, nHist int, tier string, guard *h.StdioGuar
 				openWin = k // the rename has been executed when this boundary is reached
 			}
 			// ---- images of boundary k (state before the operation the label names)
-			ackedIDs, ingestedIDs := map[string]bool{}, map[string]bool{}
+			ackedIDs, ingestedIDs, failedIDs := map[string]bool{}, map[string]bool{}, map[string]bool{}
 			for _, a := range acks {
 				if a.ok && a.at <= k {
 					for _, id := range a.ids {
 						ackedIDs[id] = true
+					}
+				}
+				if !a.ok && a.at <= k {
+					for _, id := range a.ids {
+						failedIDs[id] = true
 					}
 				}
 			}
@@ -916,6 +922,9 @@ func runCrash(out string, seed int64, nHist int, tier string, guard *h.StdioGuar
 					}
 					if !ingestedIDs[id] && got[id] == 1 {
 						o.Invented++
+					}
+					if failedIDs[id] && got[id] == 1 {
+						o.FailedVisible++
 					}
 				}
 				for id := range ackedIDs {
